@@ -146,6 +146,21 @@ func analyseMethod(c *core.Ctx, s *c20side, m *types.Func) {
 		if !ok {
 			return 0
 		}
+		// a slice that is, on this path, the nil constant or a fresh allocation (the result of an inlined sibling)
+		switch rv := w.Resolve(subj).(type) {
+		case *ssa.Const:
+			if rv.IsNil() {
+				if neq {
+					return -1
+				}
+				return 1
+			}
+		case *ssa.MakeSlice:
+			if neq {
+				return 1
+			}
+			return -1
+		}
 		st := nilStateOf(w.Events(), subj, w)
 		if st == nUnknown {
 			return 0
@@ -642,7 +657,16 @@ func summarise(c *core.Ctx, s *c20side, recv ssa.Value, p *paths.Path) *pathFact
 		if isErrorType(r.Type()) {
 			continue // the error result is what reports the failure
 		}
-		if !isZeroValue(r, touched) {
+		// string(<nil slice>) and the like: the operand of a conversion is looked at through the path's bindings
+		rv := r
+		for i := 0; i < 3; i++ {
+			cv, isCv := rv.(*ssa.Convert)
+			if !isCv || len(p.Events) == 0 {
+				break
+			}
+			rv = p.Events[len(p.Events)-1].Resolve(cv.X)
+		}
+		if !isZeroValue(rv, touched) {
 			f.zeroOK = false
 		}
 	}
